@@ -257,7 +257,8 @@ pub fn behaviour_hypothesis(model: &mut Model, model_name: &str, sexp0: &str, co
     } else if model_name.starts_with("remove_if_expression") {
         lean_hypothesis(model, "remove_if_expression", sexp0)
     } else if model_name.starts_with("remove_floor_division") {
-        !code.contains("__idiv")
+        // F26 (`__idiv`) and F28 (`//=` with a user identifier named like the temporaries)
+        !code.contains("__idiv") && !(code.contains("//=") && code.contains("__DARKLUA_VAR"))
     } else {
         true
     }
